@@ -435,6 +435,9 @@ func (fv *FuncVerifier) evalFuncCall(fn *types.Func, call *ast.CallExpr, st *Sta
 		}
 	}
 	if sp == nil {
+		if key == "sort.Search" {
+			return fv.sortSearch(call, st)
+		}
 		if m, ok := builtinModels[key]; ok {
 			args, wb := fv.receiverAndArgs(fn, call, st)
 			r := m.fn(fv, call, args, st)
@@ -951,6 +954,35 @@ func tsubstKey(m map[*types.TypeParam]types.Type) string {
 	}
 	sort.Strings(parts)
 	return "<" + strings.Join(parts, ",") + ">"
+}
+
+// sortSearch models sort.Search(n, f) for a function literal f: the result r satisfies
+// 0 <= r <= n, f(r) if r < n, and !f(r-1) if r > 0 - the two facts binary search establishes for any
+// predicate (that r is the smallest such index then follows from monotonicity, i.e. from the
+// sortedness the caller knows). f is evaluated symbolically at r and r-1, under the guard that the
+// index is in [0, n), which is also the guard of the safety obligations of its body.
+func (fv *FuncVerifier) sortSearch(call *ast.CallExpr, st *State) []Term {
+	lit, ok := ast.Unparen(call.Args[1]).(*ast.FuncLit)
+	if !ok || fv.specMode > 0 || fv.termMode {
+		reject("sort.Search with a predicate that is not a function literal at %s", fv.pos(call.Pos()))
+	}
+	n := fv.evalTo(call.Args[0], types.Typ[types.Int], st)
+	r := fv.u.freshConst("search", sortInt)
+	st.assume(mk(sortBool, "(and (<= 0 %s) (<= %s %s))", r.S, r.S, n.S))
+	at := func(x Term) Term {
+		a := st.clone()
+		a.assume(mk(sortBool, "(and (<= 0 %s) (< %s %s))", x.S, x.S, n.S))
+		res := fv.runClosureBody(lit, fv.frame(), []Term{x}, a)
+		if len(res) != 1 || res[0].Sort == nil || res[0].Sort.Kind != KBool {
+			reject("sort.Search predicate at %s", fv.pos(lit.Pos()))
+		}
+		return res[0]
+	}
+	st.assume(implies(mk(sortBool, "(< %s %s)", r.S, n.S), at(r)))
+	prev := fv.def("searchPrev", mk(sortInt, "(- %s 1)", r.S))
+	st.assume(implies(mk(sortBool, "(> %s 0)", r.S), not(at(prev))))
+	fv.u.note("sort.Search modelled by what binary search establishes: f(r) if r < n, !f(r-1) if r > 0")
+	return []Term{r}
 }
 
 // ---------------------------------------------------------------- pure functions
